@@ -12,8 +12,8 @@
 #include <stdlib.h>
 #include <string.h>
 
-enum { F_SHAPE, F_SWEEP, F_MULTI, F_FRAME, F_CONF, F_N };
-static const char *FNAME[F_N] = {"message-shapes", "field-sweeps", "multi-message", "framing-abuse", "configured-equipment"};
+enum { F_SHAPE, F_SWEEP, F_MULTI, F_FRAME, F_CONF, F_STORM, F_N };
+static const char *FNAME[F_N] = {"message-shapes", "field-sweeps", "multi-message", "framing-abuse", "configured-equipment", "reply-storm"};
 #define CONF_PER 3421L      /* cases per (type, sender) of the configured-equipment family */
 static const int DLEN[18] = {0, 1, 2, 3, 4, 5, 6, 7, 8, 9, 10, 11, 12, 20, 40, 60, 100, 124};
 static const uint8_t FILL[3] = {0x00, 0xFF, 0x05};
@@ -27,6 +27,7 @@ static long fam_count(int fam) {
 	case F_MULTI: return 5L * 5 * 5 + 5 * 5;
 	case F_FRAME: return 601L * 2 + 7 + 49 + 343 + 2401;
 	case F_CONF: return CONF_PER * 128 * 3;
+	case F_STORM: return 4L * 6 * 40;
 	}
 	return 0;
 }
@@ -84,6 +85,19 @@ static int gen_stream(int fam, long idx, uint8_t *out, char *human, size_t hn) {
 			ho += (size_t) snprintf(human + ho, hn - ho, "%d", kind);
 		}
 		return (int) rc_frame(out, m, (size_t) ml2, 1);
+	}
+	if (fam == F_STORM) {
+		/* received bytes that make the LIBRARY write: the interface announces a packet capacity (64 / 155 / 200 / 255), then n = 1..40
+		 * accessory notifications arrive from a node whose address consists of framing characters — each is answered with a
+		 * MSG_ACCESSORY_GET that repeats the address and is batched without a flush, so the downlink packet grows with escape pairs
+		 * at every alignment towards the staging buffer's end */
+		static const uint8_t CAPS[4] = {64, 155, 200, 255}; static const uint8_t AD[6][4] = {{0xFE, 0, 0, 0}, {0xFD, 0, 0, 0}, {0xFE, 0xFD, 0, 0}, {0xFE, 0xFE, 0xFE, 0}, {0x01, 0xFE, 0, 0}, {0x01, 0x02, 0xFD, 0}};
+		int nn = 1 + (int) (idx % 40); idx /= 40; int ai = (int) (idx % 6); idx /= 6; uint8_t cap = CAPS[idx % 4];
+		static const uint8_t a0[4] = {0, 0, 0, 0}; int o = 0;
+		ml = rc_build_msg(m, a0, 0, MSG_PKT_CAPACITY, &cap, 1); o += (int) rc_frame(out + o, m, (size_t) ml, 1);
+		for (int i = 0; i < nn && o < 1200; i++) { uint8_t d[5] = {(uint8_t) (i & 3), 1, 2, 0, 0}; ml = rc_build_msg(m, AD[ai], 0, MSG_ACCESSORY_NOTIFY, d, 5); o += (int) rc_frame(out + o, m, (size_t) ml, 1); }
+		snprintf(human, hn, "capacity %d announced, then %d accessory notifications from node %02x.%02x.%02x", cap, nn, AD[ai][0], AD[ai][1], AD[ai][2]);
+		return o;
 	}
 	if (fam == F_CONF) {
 		/* well-formed messages FROM CONFIGURED NODES (mode 2: normal mode with the standard configuration), every uplink type:
@@ -236,6 +250,7 @@ int c12_run(const char *tier) {
 	 * a message that changes connectivity (node lost, table change) only affects its own batch */
 	for (long s = 0; s < fam_count(F_SWEEP); s += C12_BATCH) add_job(2, F_SWEEP, s, C12_BATCH);
 	for (long s = 0; s < fam_count(F_CONF); s += CONF_PER) add_job(2, F_CONF, s, CONF_PER);
+	for (long s = 0; s < fam_count(F_STORM); s += 240) { add_job(2, F_STORM, s, 240); add_job(1, F_STORM, s, 240); }
 	long execs = 0, states = 0; int exhaustive = 1; long singles = 0;
 	round_base = 0;
 	for (int round = 0; round < 200 && round_base < njobs; round++) {
